@@ -173,6 +173,10 @@ pub fn event_name(case_str_seed: u64, node: u32) -> String {
 }
 
 pub fn prop_kv(case_str_seed: u64, node: u32, j: usize) -> (String, String) {
+    // arbitrary-string cases also produce empty values (keys stay unique: they attribute)
+    if case_str_seed != 0 && crate::sim::mix(case_str_seed ^ ((node as u64) << 20) ^ j as u64) % 12 == 0 {
+        return (format!("k{}.{}{}", node, j, junk(case_str_seed, (node as u64) << 8 | (j as u64) << 2 | 2)), String::new());
+    }
     (
         format!("k{}.{}{}", node, j, junk(case_str_seed, (node as u64) << 8 | (j as u64) << 2 | 2)),
         format!("v{}.{}{}", node, j, junk(case_str_seed, (node as u64) << 8 | (j as u64) << 2 | 3)),
